@@ -111,7 +111,7 @@ theorem leaf_open_slice_bounded {ls : List α} (hn : ls.Nodup) {i : Nat} {a : α
   have hg := AMap.get?_zipIdx_some 0 hn hi
   simp only [Nat.add_zero] at hg
   constructor <;>
-    simp [Level.nodeIndex, Index.locToIlocP, Index.locMap, Index.mapSliceArgs, Index.mapSliceArg, hg,
+    simp [Level.nodeIndex, Index.locToIlocP, Index.locMap, Index.mapSliceArgs, Index.mapSliceArg, Index.mapSliceStop, hg,
       Index.boundSlice, Index.len]
 
 /-! ### non-vacuity -/
